@@ -679,6 +679,10 @@ tx_outs:\n{tx_outs}
         tx_in = self.tx_ins[input_index]
         if len(tx_in.witness.items) < 2 or tx_in.tap_script is None:
             raise RuntimeError("initialize single leaf multisig first")
+        # start again from the TapScript and ControlBlock: an earlier attempt (with
+        # fewer signatures) may have left its items in front of them
+        keep = 3 if tx_in.witness.has_annex() else 2
+        tx_in.witness.items = tx_in.witness.items[-keep:]
         for point in tx_in.tap_script.points:
             for sig in sigs:
                 if len(sig) == 0:
